@@ -140,6 +140,12 @@ cross!(cross_layout, nm::base::Z, nm::base::Z { a: kani::any(), b: kani::any() }
 // @h cross_toggled props=C04 tier=thorough kind=complete vars="v:base::P read as toggled::P (zero-copy)" fns="deser/mod.rs:check_header"
 cross!(cross_toggled, nm::base::P, nm::base::P { a: kani::any(), b: kani::any() }, nm::toggled::P, 128);
 
+pub fn type_digest<T: TypeHash + ?Sized>() -> u64 {
+    let mut th = xxhash_rust::xxh3::Xxh3::new();
+    T::type_hash(&mut th);
+    th.finish()
+}
+
 /// digest of a pinned recipe: the items are fed the way `str::hash` / `usize::hash` feed them
 pub enum It {
     S(&'static str),
@@ -157,12 +163,15 @@ pub fn recipe_digest(items: &[It]) -> u64 {
     h.finish()
 }
 macro_rules! pinned {
-    ($t:ty, $($it:expr),+) => {
-        assert!(digests::<$t>().0 == recipe_digest(&[$($it),+]),
-            "[C06/typehash.pinned] the type hash is the published function of the type's structure (format 1.1 names)");
-        assert!(digests::<$t>().0 == recipe_digest(&[$($it),+]),
-            "[C04/typehash.recipe] the type hash feeds the whole published recipe (names, lengths as pointer-width words, parameters): what keeps distinct types apart");
-    };
+    ($t:ty, $($it:expr),+) => {{
+        // computed once (two xxh3 runs per type), asserted for both properties on
+        // branches of their own
+        let same = type_digest::<$t>() == recipe_digest(&[$($it),+]);
+        crate::check_each!(
+            (same, "[C06/typehash.pinned] the type hash is the published function of the type's structure (format 1.1 names)"),
+            (same, "[C04/typehash.recipe] the type hash feeds the whole published recipe (names, lengths as pointer-width words, parameters): what keeps distinct types apart")
+        );
+    }};
 }
 
 // The names below are those of format version 1.1 as published (contracts/FORMAT.md);
